@@ -301,6 +301,7 @@ func Install() {
 
 // Reset clears the registry.
 func Reset() {
+	writeSeq = 0
 	Created = nil
 	NextOutcomes = nil
 	OnCreate = nil
